@@ -36,7 +36,9 @@ def seeded_table():
         t = det.get("quick-target")
         need = (m.get("summary") or "").replace("|", "/")
         tcol = ("yes" if t else ("NO" if t == [] else ("yes" if (q and m["property"] in q) else "(not run)")))
-        rows.append("| %s | %s | %s | %s | %s |" % (os.path.basename(d), m["property"], need[:330], tcol, " ".join(q) if q else ("none" if q == [] else "(not run)")))
+        part = det.get("quick-partial")
+        allcol = " ".join(q) if q else ("none" if q == [] else ("(some checks run: %s)" % " ".join(part) if part else "(not run)"))
+        rows.append("| %s | %s | %s | %s | %s |" % (os.path.basename(d), m["property"], need[:330], tcol, allcol))
     return "\n".join(rows)
 
 
